@@ -99,6 +99,13 @@ theorem C10_write_then_read (t : Ty) (hwf : t.wf = true) (v : Val) (hv : valid t
     simpa [Snk.acc, List.append_assoc] using hb
   exact (rt t hwf).decInto prior hv he s rest hcs hb' hf hr
 
+/-- non-vacuity of `C10_write_then_read`: an empty unbounded healthy sink fits and the write succeeds -/
+example :
+    let t : Ty := .seq .vector (.int .u16 .plain)
+    let v : Val := .list [.int 1, .int 300]
+    ({} : Snk).fits (size t v) ∧ (serialize t v {}).1 = .ok () := by
+  refine ⟨⟨rfl, by decide, by decide⟩, by rfl⟩
+
 /-- a writer without room for `Size(value)` refuses in `Prepare`: nothing is written -/
 theorem C10_write_no_room (t : Ty) (v : Val) (s : Snk) (hc : s.fault = .none) (hr : s.room (size t v) = false) :
     serialize t v s = (.error .writeLimitReached, s) := by
